@@ -254,10 +254,34 @@ impl Vm {
                     .map(|state| state.as_str())
                     .collect::<Vec<&str>>(),
             ),
+            // As in the generated parser, the tag of an optional or repeated expression is applied
+            // to each match of the inner expression: `#t = e?` that matches nothing tags nothing.
             #[cfg(feature = "grammar-extras")]
-            OptimizedExpr::NodeTag(ref expr, ref tag) => self
-                .parse_expr(expr, state)
-                .and_then(|state| state.tag_node(tag)),
+            OptimizedExpr::NodeTag(ref expr, ref tag) => match **expr {
+                OptimizedExpr::Opt(ref inner) => state.optional(|state| {
+                    self.parse_expr(inner, state)
+                        .and_then(|state| state.tag_node(tag))
+                }),
+                OptimizedExpr::Rep(ref inner) => state.sequence(|state| {
+                    state.optional(|state| {
+                        self.parse_expr(inner, state)
+                            .and_then(|state| state.tag_node(tag))
+                            .and_then(|state| {
+                                state.repeat(|state| {
+                                    state.sequence(|state| {
+                                        self.skip(state).and_then(|state| {
+                                            self.parse_expr(inner, state)
+                                                .and_then(|state| state.tag_node(tag))
+                                        })
+                                    })
+                                })
+                            })
+                    })
+                }),
+                _ => self
+                    .parse_expr(expr, state)
+                    .and_then(|state| state.tag_node(tag)),
+            },
             OptimizedExpr::RestoreOnErr(ref expr) => {
                 state.restore_on_err(|state| self.parse_expr(expr, state))
             }
